@@ -15,6 +15,9 @@ World  == -1          \* endpoint of a contact / equality: static body
 Mocap  == -2          \* endpoint of a contact / equality: mocap body (counts as awake)
 Carried  == -3        \* jointless child body of a mocap body: moves with it, counts as awake
 Carried2 == -4        \* jointless grandchild of a mocap body
+\* how an equality is defined: weld / connect x between bodies / between SITES (mj_wakeEquality resolves sites to bodies)
+WeldBody == 0   ConnectBody == 1   WeldSite == 2   ConnectSite == 3
+EqKinds == {WeldBody, ConnectBody, WeldSite, ConnectSite}
 \* classification of a body by mj_updateSleep: a dof-less body is "static" unless its ROOT is a mocap body
 BodyClass(z) == IF z \in 0..(NT - 1) THEN "dynamic" ELSE IF z \in {Mocap, Carried, Carried2} THEN "mocap-carried" ELSE "static"
 NoTree == -1
